@@ -1759,3 +1759,38 @@ func specNextLine(fb *functionBuilder) int {
 //@   requires fs != nil && fs.emitter != nil && fs.emitter.fb != nil && fs.emitter.fb.fn != nil && fs.predefFuncIndexes != nil
 //@   requires len(fs.emitter.fb.fn.NativeFunctions) <= 256
 //@   ensures[C20] len(fs.emitter.fb.fn.NativeFunctions) <= 256
+
+// ---------------------------------------------------------------------------
+// C01, `continue` in a `for` statement: the emitter keeps a stack of continue
+// targets (em.rangeLabels); `continue` jumps to the top one. Go: "a continue
+// statement begins the next iteration of the innermost enclosing for loop by
+// advancing control to the end of the loop block", i.e. to the post statement
+// if there is one. A `for` statement therefore (i) leaves the stack as it
+// found it - otherwise a `continue` of the enclosing loop written after it
+// jumps into it - and (ii) emits the post statement only after the address of
+// the label it pushed has been fixed (the label is placed right before the
+// post statement, not at the head of the body).
+// The recursive call is taken by its contract (induction over the nesting of
+// statements): emitting a list of statements leaves the stack as it found it.
+// The two statements that push - `for` here and `for range` in emitForRange -
+// discharge it for themselves.
+// ---------------------------------------------------------------------------
+
+//@ func (*emitter).emitNodes
+//@   props X00
+//@   trusted
+//@   ensures len(em.rangeLabels) == old(len(em.rangeLabels))
+
+//@ clause (*emitter).emitNodes/case *ast.For
+//@   props X00 C01
+//@   panics allowed
+//@   opt stable emitter github.com/open2b/scriggo/ast.For
+//@   requires em != nil && node != nil
+//@   ensures[C01] len(em.rangeLabels) == old(len(em.rangeLabels))
+
+//@ func (*emitter).emitForRange
+//@   props X00 C01
+//@   panics allowed
+//@   opt stable emitter
+//@   requires em != nil && node != nil
+//@   ensures[C01] len(em.rangeLabels) == old(len(em.rangeLabels))
